@@ -64,6 +64,11 @@ func init() {
 	generators["C16r"] = func(r *rand.Rand, tier, id string) Case {
 		return genC16(r, tier, id, c16Avoid{empty: true, flush: true, refsave: true, oneRefsave: true})
 	}
+	// C17l: C16s where the deletion that crosses the legacy/new boundary runs under the storage
+	// fault explorer ("fault prune n")
+	generators["C17l"] = func(r *rand.Rand, tier, id string) Case {
+		return genC16(r, tier, id, c16Avoid{empty: true, flush: true, refsave: true, faults: true})
+	}
 	runners["m1l"] = runM1L
 }
 
@@ -75,6 +80,7 @@ func init() {
 type c16Avoid struct {
 	empty, flush, refsave bool
 	holes                 bool // legacy-side deletions of single versions in any order ("ldel v")
+	faults                bool // the deletion across the boundary is explored under storage faults
 	oneRefsave            bool // exactly one commit whose root is an untouched legacy node, no rollback afterwards
 }
 
@@ -248,7 +254,11 @@ func genC16(r *rand.Rand, tier, id string, avoid c16Avoid) Case {
 		if legacyAlive && nv < L {
 			ops = append(ops, []string{"lprune", i64(nv)})
 		} else {
-			ops = append(ops, []string{"prune", i64(nv)})
+			if avoid.faults && nv < t.latest() && (legacyAlive || r.Intn(3) == 0) {
+				ops = append(ops, []string{"fault", "prune", i64(nv)})
+			} else {
+				ops = append(ops, []string{"prune", i64(nv)})
+			}
 			if nv < t.latest() {
 				dropTo(nv)
 				if legacyAlive {
